@@ -25,7 +25,7 @@ BLOCK = 100  # only used to *aim* the generators at block boundaries; the model 
 def translate():
     from translator import registry
 
-    return registry.generate("Blocks")
+    return registry.generate("Blocks", "KernelsWta")
 
 
 # --------------------------------------------------------------------------------------------
@@ -447,9 +447,71 @@ def translator_cross_check(report, status):
             status.problem("translator", f"block literals of {name}: translator read {want}, live source has {live[name]}")
 
 
+def kernel_cross_check(ctx, report, status):
+    """T15: the real `WinnerTakesAll.to_disp` against the translator's exact reading of its source
+    (`gen_kernels_wta.evaluate_to_disp` on the statement list `Generated/KernelsWta.lean` is printed from; Lean's own reading
+    of that text is checked at build time by the generated `example`s): the disparity map, the cost volume afterwards,
+    `cv["disp_indices"]`, and how the carried fields are handed over (shared memory or not)."""
+    from fractions import Fraction
+
+    from translator import gen_blocks, gen_kernels_wta as gk, pyarr
+
+    try:
+        splits, td = gk.functions()
+        t8 = gen_blocks.extract()
+    except Exception:  # already reported by build_and_audit (translate())  # pylint: disable=broad-except
+        return
+    import random
+
+    def exact(v):
+        v = float(v)
+        return pyarr.NAN if np.isnan(v) else (v if np.isinf(v) else Fraction(v))
+
+    def same(a, b):
+        return (pyarr.is_nan(a) and pyarr.is_nan(b)) or (not pyarr.is_nan(a) and not pyarr.is_nan(b) and a == b)
+
+    rng = random.Random(999 + ctx.seed)
+    shapes = [(2, 101), (101, 1)] + [None] * ctx.n(30, 300)
+    for shape in shapes:
+        case = gen_direct(rng, shape)
+        cost, disps = dec_arr(case["cost"]), [dec_f(d) for d in case["disps"]]
+        ny, nx, nd = cost.shape
+        is_max = case["is_max"]
+        inv_cfg = dec_invalid(case["invalid_cfg"])
+        conf = None if case.get("conf") is None else dec_arr(case["conf"])
+        cv = wta.make_cv(cost, disps, "max" if is_max else "min", np.array(case["flags"]), conf, case.get("indicators"))
+        try:
+            out, inv_used = wta.to_disp(cv, inv_cfg)
+        except Exception:  # pylint: disable=broad-except
+            continue  # judged by the main stream
+        cvl = [[[exact(v) for v in px] for px in row] for row in np.array(cost, dtype=np.float32)]
+        inv = exact(np.float32(inv_used))
+        dmap, dind = gk.evaluate_to_disp(td, splits, t8, cvl, ny, nx, nd, [Fraction(d) for d in disps], is_max, inv)
+        report.translator_checks += 1
+        ok_map = all(same(exact(out["disparity_map"].data[r, c]), dmap[r][c]) for r in range(ny) for c in range(nx))
+        ok_cv = all(same(exact(cv["cost_volume"].data[r, c, k]), cvl[r][c][k]) for r in range(ny) for c in range(nx) for k in range(nd))
+        ok_ind = dind is None or ("disp_indices" in cv and all(
+            same(exact(cv["disp_indices"].data[r, c]), dind[r][c]) for r in range(ny) for c in range(nx))
+            and not np.shares_memory(cv["disp_indices"].data, out["disparity_map"].data))
+        carried = td["carried"]
+        ok_carry = True
+        if "validity_mask" in carried:
+            shared = np.shares_memory(out["validity_mask"].data, cv["validity_mask"].data)
+            ok_carry = ok_carry and (shared == (carried["validity_mask"] == "alias"))
+        if conf is not None and "confidence_measure" in carried:
+            shared = np.shares_memory(out["confidence_measure"].data, cv["confidence_measure"].data)
+            ok_carry = ok_carry and (shared == (carried["confidence_measure"] == "alias"))
+        if not (ok_map and ok_cv and ok_ind and ok_carry):
+            status.problem("translator", f"translated to_disp evaluates differently from the real function on a {ny}x{nx}x{nd} volume "
+                           f"(map {ok_map}, cost volume afterwards {ok_cv}, disp_indices {ok_ind}, carried fields {ok_carry})")
+            return
+    report.count("kernel_cross_check_volumes", len(shapes))
+
+
 def run(ctx, report, status):
     rng = ctx.rng
     translator_cross_check(report, status)
+    kernel_cross_check(ctx, report, status)
     report.rule = (
         "direct: random cost volumes (small shapes + shapes straddling the 100-pixel blocks), sub-pixel disparity coordinates, "
         "small integer/quarter costs with planted ties, NaN outside random per-pixel intervals plus NaN rows/columns/planes, "
